@@ -116,6 +116,7 @@ func (f *gateFam) play(l *Line, out *rec) error {
 			}
 		case "NilAll":
 			gateNil(out)
+			gateDiscarded(out)
 		case "FatalAll":
 			for _, filtered := range []bool{false, true} {
 				out.emit(gateFatal(filtered))
@@ -364,6 +365,53 @@ func gateNil(out *rec) {
 		}()
 		ncalls := calls + w.n - before
 		out.emit(map[string]interface{}{"a": "Nil", "m": name, "variant": variant, "calls": ncalls, "panic": pan, "neutral": neutral, "after": probe() == ref})
+	}
+}
+
+// funcHook calls e.Func from inside a hook (a hook may run after another hook has discarded the event)
+type funcHook struct{ calls *int }
+
+func (h funcHook) Run(e *zerolog.Event, l zerolog.Level, m string) {
+	e.Func(func(*zerolog.Event) { *h.calls++ })
+}
+
+type discardHook struct{}
+
+func (discardHook) Run(e *zerolog.Event, l zerolog.Level, m string) { e.Discard() }
+
+// gateDiscarded: an event that was ENABLED when it was created and then discarded (by its owner, or by an earlier hook) is
+// not written, reports Enabled() == false, and Func - "runs only if the event is enabled" - does not run its callback.
+func gateDiscarded(out *rec) {
+	for _, how := range []string{"owner", "hook"} {
+		for _, fin := range []string{"Msg", "Msgf", "Send", "MsgFunc"} {
+			calls := 0
+			w := &lvlW{}
+			lg := zerolog.New(w)
+			if how == "hook" {
+				lg = lg.Hook(discardHook{}, funcHook{&calls})
+			}
+			e := lg.Info().Str("k", "v")
+			enabled := true
+			if how == "owner" {
+				e.Discard()
+				enabled = e.Enabled()
+				e.Func(func(*zerolog.Event) { calls++ })
+			}
+			switch fin {
+			case "Msg":
+				e.Msg("m")
+			case "Msgf":
+				e.Msgf("m%d", 1)
+			case "Send":
+				e.Send()
+			case "MsgFunc":
+				e.MsgFunc(func() string { return "m" })
+			}
+			if how == "hook" {
+				enabled = false // the discarding hook ran inside the finalizer; what is observable is the callback count and the write count
+			}
+			out.emit(map[string]interface{}{"a": "Disc", "how": how, "fin": fin, "calls": calls, "written": w.n, "enabled": enabled})
+		}
 	}
 }
 
